@@ -42,7 +42,10 @@ func verifMCond(i int) string {
 type verifMTup struct{ o, u, c, x int }
 
 func verifMSymTup(name string) verifMTup {
-	t := verifMTup{o: vt.Pick(name+".o", 2), u: vt.Pick(name+".u", 2), c: vt.Pick(name+".c", 2)}
+	t := verifMTup{o: vt.Pick(name+".o", 2), c: vt.Pick(name+".c", 2)}
+	if vt.ParamInt("users", 2) > 1 { // users=1: the user is user:a everywhere (two keys instead of four)
+		t.u = vt.Pick(name+".u", 2)
+	}
 	if vt.ParamInt("ctx", 0) != 0 {
 		t.x = vt.Pick(name+".x", 2)
 	}
